@@ -1,7 +1,7 @@
 --------------------------- MODULE Trace_Bcj2Decoder ---------------------------
 (* Trace validation of the real BCJ2Reader (src/filter/bcj2.rs + bcj2/decode.rs) against Bcj2Decoder.
    vh_bcj2 records, for one run over an abstract input Inputs[i] concretised to bytes,
-     {"op":"Reset","inp":i}
+     {"op":"Reset","inp":i,"cut":c}                          run over Inputs[i] with the sources truncated by CutChoices[c]
      {"op":"Call","cap":n}                                   read() entered with a destination of n bytes
      {"op":"Src","s":stream,"ret":k}                          a read of source `stream` delivered k bytes (-1: Interrupted, -2: other error)
      {"op":"Ret","ret":k|-1,"err":code|null,"st":state,"rem":owed,"t3":byte,"need":0|1,"av":[4],"ex":[4]}
@@ -21,13 +21,14 @@ ClassOf(b) == IF b = 15 THEN "F" ELSE IF b = 232 THEN "C" ELSE IF b = 233 THEN "
 
 TInit ==
   /\ inp = 1 /\ cin = Inputs[1] /\ exp = ExpOf(Inputs[1]) /\ d = D0 /\ rd = R0(ExpOf(Inputs[1])) /\ hist = <<>>
-  /\ sch = [cap |-> 1, ch |-> [s \in Streams |-> 1], n |-> [s \in Streams |-> 0]]
+  /\ sch = [cap |-> 1, ch |-> [s \in Streams |-> 1], n |-> [s \in Streams |-> 0], cut |-> 1]
   /\ l = 1 /\ TLCSet(1, 1)
 
 Reset ==
   /\ Is("Reset")
   /\ inp' = Ev.inp /\ cin' = Inputs[Ev.inp] /\ exp' = ExpOf(Inputs[Ev.inp]) /\ d' = D0 /\ rd' = R0(ExpOf(Inputs[Ev.inp]))
-  /\ UNCHANGED <<sch, hist>>
+  /\ sch' = [sch EXCEPT !.cut = Ev.cut]
+  /\ UNCHANGED hist
 
 RetMatches ==
   /\ rd.pc = "idle"
